@@ -69,7 +69,7 @@ type Kind struct {
 	// ClassOf, when set, overrides Class per environment (a defect that exists only for some parameter
 	// shapes — e.g. two or more special primes — must not share a signature with the other shapes).
 	ClassOf func(e *Env) string
-	Names []string // argument names, for messages
+	Names   []string // argument names, for messages
 	// Make returns fresh inputs; the content must be a pure function of (e, g).
 	Make func(e *Env, g *Gen) []interface{}
 }
